@@ -667,13 +667,29 @@ impl Property for C06 {
         let targets = proptest::collection::vec(1..TARGETS.len(), 1..3);
         prop_oneof![
             3 => (program_strategy(GenCfg::data_types()), targets.clone(), proptest::bool::weighted(0.4), proptest::bool::weighted(0.3)).prop_map(|(prog, targets, old_rust_target, namespaces)| Case::C { prog, targets, old_rust_target, namespaces, keep_known: false }),
-            1 => (c07::graph_strategy(7), targets.clone(), proptest::bool::weighted(0.4)).prop_map(|(graph, targets, old_rust_target)| Case::Cpp { graph, targets, old_rust_target }),
+            1 => (prop_oneof![c07::graph_strategy(7).boxed(), c07::graph_strategy_tb(7).boxed()], targets.clone(), proptest::bool::weighted(0.4)).prop_map(|(graph, targets, old_rust_target)| Case::Cpp { graph, targets, old_rust_target }),
             1 => (zoo_strategy(), targets, proptest::bool::weighted(0.5), proptest::bool::weighted(0.5)).prop_map(|(zoo, targets, old_rust_target, namespaces)| Case::Zoo { zoo, targets, old_rust_target, namespaces }),
         ]
         .boxed()
     }
     fn generated(&self, tier: Tier) -> usize {
         tier.pick(1500, 20000)
+    }
+    fn fixed_cases(&self, _tier: Tier) -> Vec<Case> {
+        // chains of class templates ending in a concrete member, base or typedef (C07's grid),
+        // plus a concrete instantiation used only inside a class template
+        let mut v: Vec<Case> = vec![];
+        for (k, c) in c07::chain_grid().into_iter().enumerate() {
+            if let c07::Case::Dag { mut graph, .. } = c {
+                let t0 = 0usize;
+                if k % 2 == 0 {
+                    let n = graph.nodes.len();
+                    graph.nodes.push(c07::Node { kind: c07::NodeKind::Template, bases: vec![], virtual_bases: false, fields: vec![c07::FieldKind::T, c07::FieldKind::Inst(t0, c07::Arg::PtrNode(n - 1))], virtual_method: false, dtor: false, tbases: vec![] });
+                }
+                v.push(Case::Cpp { graph, targets: vec![k % TARGETS.len()], old_rust_target: k % 3 == 0 });
+            }
+        }
+        v
     }
     fn evaluate(&self, case: &Case, env: &Env) -> Outcome {
         let mut out = Outcome::new();
@@ -735,12 +751,32 @@ impl Property for C06 {
                 let inst_of = move |inv: &Inventory| -> Vec<(String, String)> {
                     let mut inst: BTreeMap<String, String> = BTreeMap::new();
                     for (i, n) in gref.nodes.iter().enumerate() {
-                        if !matches!(n.kind, c07::NodeKind::Class | c07::NodeKind::Union) {
+                        // (members of class templates included: `N1<int>` inside `template<class T> struct N3`
+                        // is just as concrete)
+                        if !matches!(n.kind, c07::NodeKind::Class | c07::NodeKind::Union | c07::NodeKind::Template) {
                             continue;
                         }
                         let Some(item) = inv.find_type(&format!("N{i}")) else { continue };
                         if item.fields.iter().any(|f| f.name == "_bindgen_opaque_blob") {
                             continue;
+                        }
+                        // bases that are instantiations: `struct N3 : N0, N1<int>` has `_base_1: N1<c_int>`
+                        for (bk, (t, a)) in n.tbases.iter().enumerate() {
+                            let Some(a) = a else { continue };
+                            if !matches!(gref.nodes[*t].kind, c07::NodeKind::Template) {
+                                continue;
+                            }
+                            let c_arg = match a {
+                                c07::Arg::Int => "int".to_string(),
+                                c07::Arg::Float => "float".to_string(),
+                                c07::Arg::Node(k) => format!("N{k}"),
+                                c07::Arg::PtrNode(k) => format!("N{k}*"),
+                            };
+                            let pos = n.bases.len() + bk;
+                            let fname = if pos == 0 { "_base".to_string() } else { format!("_base_{pos}") };
+                            if let Some(rf) = item.fields.iter().find(|x| x.name == fname) {
+                                inst.insert(rf.ty.clone(), format!("N{t}<{c_arg} >"));
+                            }
                         }
                         for (k, f) in n.fields.iter().enumerate() {
                             if let c07::FieldKind::Inst(t, a) = f {
@@ -763,7 +799,7 @@ impl Property for C06 {
                     inst.into_iter().collect()
                 };
                 let skip: Vec<String> = g.nodes.iter().enumerate().filter(|(_, n)| matches!(n.kind, c07::NodeKind::Template | c07::NodeKind::AliasTemplate(_))).map(|(i, _)| format!("N{i}")).collect();
-                let has_inst = g.nodes.iter().any(|n| n.fields.iter().any(|f| matches!(f, c07::FieldKind::Inst(..))));
+                let has_inst = g.nodes.iter().any(|n| n.fields.iter().any(|f| matches!(f, c07::FieldKind::Inst(..))) || n.tbases.iter().any(|(_, a)| a.is_some()));
                 let mut ts: Vec<usize> = vec![0];
                 ts.extend(targets.iter().map(|t| t % TARGETS.len()));
                 ts.dedup();
@@ -786,6 +822,12 @@ impl Property for C06 {
                     }
                 }
                 out.class("cpp");
+                if g.nodes.iter().any(|n| n.tbases.iter().any(|(_, a)| a.is_some())) {
+                    out.class("cpp:base-is-instantiation");
+                }
+                if g.nodes.iter().any(|n| matches!(n.kind, c07::NodeKind::Template) && n.fields.iter().any(|f| matches!(f, c07::FieldKind::Inst(..)))) {
+                    out.class("cpp:instantiation-inside-template");
+                }
                 out.sample = Some(json!({"header": header, "has_instantiations": has_inst}));
             }
             Case::Zoo { zoo, targets, old_rust_target, namespaces } => {
